@@ -179,6 +179,16 @@ class InttypeStream(runner.Stream):
                     return f"constant MAX/MAX_T is {r[c]}, declared upper bound {b}"
         if r["c_min"] != r["c_min_t"] or r["c_max"] != r["c_max_t"]:
             return "MIN != MIN_T or MAX != MAX_T"
+        # an undeclared bound (MIN / MAX) must not be replaced by one that excludes permitted values:
+        # accessors and constants have to describe a non-empty range around the declared bound
+        if r["fn_min"] > r["fn_max"]:
+            return f"v_min() = {r['fn_min']} > v_max() = {r['fn_max']}: the accessors describe an empty range"
+        if r["c_min"] is not None and r["c_max"] is not None and r["c_min"] > r["c_max"]:
+            return f"constants MIN = {r['c_min']} > MAX = {r['c_max']}: empty range"
+        if b is None and a is not None and (r["fn_max"] < a or (r["c_max"] is not None and r["c_max"] < a)):
+            return f"upper bound MAX replaced by a bound below the declared lower bound {a}"
+        if a is None and b is not None and r["c_min"] is not None and r["c_min"] > b:
+            return f"lower bound MIN replaced by a bound above the declared upper bound {b}"
         # whatever the accessors return must be a value of the type
         if not (lo <= r["fn_min"] <= hi and lo <= r["fn_max"] <= hi):
             return f"accessor value outside {ty}"
